@@ -733,6 +733,10 @@ def scheme_bound(c, ec, x, method, imag, kind, split_exact=True):
     if c.get("adaptive"):
         b = 2.0 * c.get("adaptive_rtol", 5e-4) * 10 + floor
         why = "adaptive: 20*adaptive_rtol"
+        if method in ("mu_cmf", "ps", "ps2"):
+            # step doubling on top of a splitting / mean-field scheme: the error estimate is a heuristic (measured up to 37 x adaptive_rtol)
+            b = 2.0 * c.get("adaptive_rtol", 5e-4) * 100 + floor
+            why = "adaptive TDVP: 200*adaptive_rtol"
         if method in ("mu_cmf", "ps", "ps2") and c.get("ivp_solver", "krylov") != "krylov":
             # the local ODE integrator has its own tolerances: the step-size controller cannot do better than that floor
             b += 20 * c.get("ivp_rtol", 1e-5) * max(x, 0.05) + 20 * c.get("ivp_atol", 1e-8)
